@@ -3,7 +3,7 @@
 ID=$1; shift
 CHECKS=${@:-$ID}
 S=/tmp/seed/$ID; O=/tmp/seed/$ID.out
-CLEAN=${SEED_CLEAN:-/tmp/seed/clean2}
+CLEAN=${SEED_CLEAN:-/tmp/seed/clean3}
 echo "== diffstat"; git -C $S diff --stat | tail -3
 echo "== baseline with change"; /tmp/seed/baseline.sh $S
 echo "== demo on clean tree"; bash $O/run_demo.sh $CLEAN > /tmp/seed/$ID.demo_clean.txt 2>&1; echo "exit=$? $(tail -1 /tmp/seed/$ID.demo_clean.txt | cut -c1-200)"
